@@ -259,6 +259,29 @@ Lemma flat1_nth_concat {A} (row : list (list A)) n : length row = n ->
   flat_map (fun i => nth i row []) (seq 0 n) = concat row.
 Proof. intros HL. rewrite flat_map_concat_map. rewrite map_nth_seq by exact HL. reflexivity. Qed.
 
+Lemma reindex3 {A} (P : list A) dflt a b c : length P = a * b * c ->
+  flat_map (fun w => flat_map (fun u_ => map (fun v => nth (v + u_ * a + w * b * a) P dflt) (seq 0 a)) (seq 0 b)) (seq 0 c) = P.
+Proof.
+  intros HL.
+  etransitivity; [|apply (reindex2 P dflt (a * b) c); lia].
+  apply flat_map_seq_ext. intros w Hw.
+  set (Pw := map (fun i => nth (i + w * (a * b)) P dflt) (seq 0 (a * b))).
+  etransitivity; [|apply (reindex2 Pw dflt a b); unfold Pw; rewrite map_length, seq_length; reflexivity].
+  apply flat_map_seq_ext. intros u_ Hu. apply map_seq_ext. intros v Hv.
+  unfold Pw. rewrite InsertDirR.nth_map_seq by nia. f_equal. lia.
+Qed.
+
+(* zero insertions: the generic (row) algorithm returns its input *)
+Lemma kig_zero {A} (lerpA : R -> A -> A -> A) (dA : A) p (U : list R) (P : list A) u s k :
+  s <= p -> p <= k -> k < length P -> knot_insertion_g Rops lerpA dA p U P u 0 s k = P.
+Proof.
+  intros H1 H2 H3. apply (nth_ext _ _ dA dA).
+  - destruct (ki_frame Rops lerpA dA p U P u 0 s k) as [HL _]; auto; lia.
+  - intros i _. change (nth i ?l dA) with (getA dA l i).
+    rewrite knot_insertion_g_closed by (auto; lia). unfold ki_closed.
+    bdestr; try reflexivity; cbn [Rtri]; unfold getA; f_equal; lia.
+Qed.
+
 (* ------------------------------------------------------------------ w direction *)
 Section VolW.
 Variables (tol2 : R) (g : @vol R) (t : R) (s k d r : nat).
@@ -349,4 +372,347 @@ Proof.
   apply (rows_remove_chunk d tol2 (v_pw g) (v_Uw g) C t s k d uv r); try assumption;
     try exact uv_pos; try exact Cw_rows; try exact Cw_pts; rewrite ?Cw_length; lia.
 Qed.
+Lemma net_w_zero : length (v_P g) = su * sv * sw -> vol_net_w Rops g t 0 s k = v_P g.
+Proof.
+  intros HL. rewrite net_w_eq. unfold KR, knot_insertion_rows. rewrite kig_zero by (rewrite ?Cw_length; lia).
+  rewrite Nat.add_0_r. unfold C.
+  etransitivity; [|apply (reindex2 (v_P g) [] uv sw); unfold uv; lia].
+  apply flat_map_seq_ext. intros w_ Hw. rewrite InsertDirR.nth_map_seq by lia. reflexivity.
+Qed.
+
+(* [G] r removals in w after r insertions in w restore the control net *)
+Theorem vol_remove_r_insert_r_w : 1 <= r -> length (v_P g) = su * sv * sw ->
+  vol_rem_w Rops tol2 g' t r (s + r) (k + r) = v_P g.
+Proof. intros Hr HL. rewrite vol_remove_j_insert_r_w by lia. rewrite Nat.sub_diag. apply net_w_zero. exact HL. Qed.
 End VolW.
+
+(* ------------------------------------------------------------------ u direction *)
+Section VolU.
+Variables (tol2 : R) (g : @vol R) (t : R) (s k d r : nat).
+Notation su := (v_su g). Notation sv := (v_sv g). Notation sw := (v_sw g).
+Hypothesis Hsr : s + r <= v_pu g.
+Hypothesis Hpk : v_pu g <= k.
+Hypothesis Hk : k < su.
+Hypothesis HkU : k + v_pu g < length (v_Uu g).
+Hypothesis Hsv : 0 < sv.
+Hypothesis Hsw : 0 < sw.
+Hypothesis Hdim : forall i, i < su * sv * sw -> length (getp (v_P g) i) = d.
+Hypothesis Htol : (0 <= tol2)%R.
+Hypothesis HsepL : forall i, k - v_pu g < i <= k - s -> (knR (v_Uu g) i < t)%R.
+Hypothesis HsepR : forall i, k < i <= k + v_pu g -> (t < knR (v_Uu g) i)%R.
+
+Let g' := vol_after_u g t r s k.
+Let m := sv * sw.
+Let C := map (fun u_ => flat_map (fun w_ => map (fun v_ => getp (v_P g) (vidx g u_ v_ w_)) (seq 0 sv)) (seq 0 sw)) (seq 0 su).
+Let KR (n : nat) := knot_insertion_rows Rops (v_pu g) (v_Uu g) C t n s k.
+
+Lemma m_pos_u : 0 < m.
+Proof. unfold m. nia. Qed.
+Lemma Cu_length : length C = su.
+Proof. unfold C. rewrite map_length, seq_length. reflexivity. Qed.
+Lemma Cu_rows i : i < length C -> length (nth i C []) = m.
+Proof.
+  intros Hi. rewrite Cu_length in Hi. unfold C. rewrite InsertDirR.nth_map_seq by exact Hi.
+  apply flat_map_length_const. intros. rewrite map_length, seq_length. reflexivity.
+Qed.
+Lemma Cu_pts i c : i < length C -> c < m -> length (nth c (nth i C []) []) = d.
+Proof.
+  intros Hi Hc. rewrite Cu_length in Hi. unfold C. rewrite InsertDirR.nth_map_seq by exact Hi.
+  unfold m in Hc.
+  pose proof (Nat.div_mod c sv ltac:(lia)) as Hdm.
+  pose proof (Nat.mod_upper_bound c sv ltac:(lia)) as Hmod.
+  assert (Hq : c / sv < sw) by (apply Nat.div_lt_upper_bound; lia).
+  rewrite Hdm at 1. rewrite (Nat.add_comm (sv * (c / sv))).
+  rewrite (nth_flat_map_const _ sv); auto.
+  2:{ intros. rewrite map_length, seq_length. reflexivity. }
+  rewrite InsertDirR.nth_map_seq by exact Hmod. apply Hdim. unfold vidx. nia.
+Qed.
+Lemma HkCu : k < length C.
+Proof. rewrite Cu_length. exact Hk. Qed.
+
+Lemma net_u_eq n : vol_net_u Rops g t n s k =
+  flat_map (fun w_ => flat_map (fun u_ => map (fun v_ => getp (nth u_ (KR n) []) (v_ + w_ * sv)) (seq 0 sv)) (seq 0 (su + n))) (seq 0 sw).
+Proof. reflexivity. Qed.
+
+Lemma KRu_length n : n <= r -> length (KR n) = su + n.
+Proof.
+  intros Hn. unfold KR. rewrite (KR_length (v_pu g) (v_Uu g) C t s k m r Hsr Hpk HkCu HkU m_pos_u n Hn). rewrite Cu_length. reflexivity.
+Qed.
+
+Lemma KRu_row n i : n <= r -> i < su + n -> length (nth i (KR n) []) = m.
+Proof.
+  intros Hn Hi.
+  destruct (KR_row (v_pu g) (v_Uu g) C t s k m r Hsr Hpk HkCu HkU m_pos_u Cu_rows n i 0 Hn
+              ltac:(rewrite Cu_length; exact Hi) m_pos_u) as [HL _]. exact HL.
+Qed.
+
+Lemma net_u_nth n u_ v_ w_ : n <= r -> u_ < su + n -> v_ < sv -> w_ < sw ->
+  getp (vol_net_u Rops g t n s k) (v_ + u_ * sv + w_ * (su + n) * sv) = nth (v_ + w_ * sv) (nth u_ (KR n) []) [].
+Proof.
+  intros Hn Hu Hv Hw. rewrite net_u_eq.
+  replace (v_ + u_ * sv + w_ * (su + n) * sv) with ((v_ + sv * u_) + (sv * (su + n)) * w_) by lia.
+  unfold getp at 1.
+  rewrite (nth_flat_map_const (fun w_ => flat_map (fun u_ => map (fun v_ => getp (nth u_ (KR n) []) (v_ + w_ * sv)) (seq 0 sv)) (seq 0 (su + n)))
+             (sv * (su + n))); auto; try nia.
+  2:{ intros q Hq. apply flat_map_length_const. intros. rewrite map_length, seq_length. reflexivity. }
+  rewrite (nth_flat_map_const (fun u_ => map (fun v_ => getp (nth u_ (KR n) []) (v_ + w_ * sv)) (seq 0 sv)) sv); auto.
+  2:{ intros. rewrite map_length, seq_length. reflexivity. }
+  rewrite InsertDirR.nth_map_seq by exact Hv. reflexivity.
+Qed.
+
+Lemma pdim_u : pdim (v_P g') = d.
+Proof.
+  unfold pdim, g', vol_after_u. cbn [v_P].
+  pose proof (net_u_nth r 0 0 0 ltac:(lia) ltac:(lia) Hsv Hsw) as E. cbn [Nat.mul Nat.add] in E. rewrite E.
+  apply (KR_pt_dim (v_pu g) (v_Uu g) C t s k d m r Hsr Hpk HkCu HkU m_pos_u Cu_rows Cu_pts r 0); try lia.
+  - rewrite Cu_length. lia.
+  - apply nth_In. change (0 < length (nth 0 (KR r) [])). rewrite KRu_row by lia. exact m_pos_u.
+Qed.
+
+Lemma rem_cpt2d_u :
+  map (fun u_ => flat_map (fun w_ => flat_map (fun v_ => getp (v_P g') (vidx g' u_ v_ w_)) (seq 0 (v_sv g'))) (seq 0 (v_sw g'))) (seq 0 (v_su g'))
+  = map (@concat R) (KR r).
+Proof.
+  unfold g', vol_after_u, vidx. cbn [v_P v_su v_sv v_sw].
+  rewrite <- (map_seq_nth (@concat R) (KR r) [] (su + r)) by (apply KRu_length; lia).
+  apply map_seq_ext. intros u_ Hu.
+  rewrite <- (flat2_nth_concat (nth u_ (KR r) []) sv sw) by (apply KRu_row; lia).
+  apply flat_map_seq_ext. intros w_ Hw. apply flat_map_seq_ext. intros v_ Hv. apply net_u_nth; lia.
+Qed.
+
+(* [G] j removals in u after r insertions in u: the net operations.insert_knot builds for the count r - j *)
+Theorem vol_remove_j_insert_r_u j : 1 <= j <= r ->
+  vol_rem_u Rops tol2 g' t j (s + r) (k + r) = vol_net_u Rops g t (r - j) s k.
+Proof.
+  intros Hj. unfold vol_rem_u. rewrite pdim_u. rewrite rem_cpt2d_u.
+  replace (v_su g' - j) with (su + (r - j)) by (unfold g', vol_after_u; cbn [v_su]; lia).
+  replace (v_sv g') with sv by reflexivity. replace (v_sw g') with sw by reflexivity.
+  replace (v_pu g') with (v_pu g) by reflexivity. replace (v_Uu g') with (knot_insertion_kv (v_Uu g) t k r) by reflexivity.
+  rewrite net_u_eq. apply flat_map_seq_ext. intros w_ Hw. apply flat_map_seq_ext. intros u_ Hu.
+  apply map_seq_ext. intros v_ Hv. unfold getp at 2.
+  apply (rows_remove_chunk d tol2 (v_pu g) (v_Uu g) C t s k d m r Hsr Hpk HkCu HkU m_pos_u Cu_rows Cu_pts Htol HsepL HsepR j u_ (v_ + w_ * sv) Hj).
+  - rewrite Cu_length. lia.
+  - unfold m. nia.
+Qed.
+Lemma net_u_zero : length (v_P g) = su * sv * sw -> vol_net_u Rops g t 0 s k = v_P g.
+Proof.
+  intros HL. rewrite net_u_eq. unfold KR, knot_insertion_rows. rewrite kig_zero by (rewrite ?Cu_length; lia).
+  rewrite Nat.add_0_r.
+  etransitivity; [|apply (reindex3 (v_P g) [] sv su sw); lia].
+  apply flat_map_seq_ext. intros w_ Hw. apply flat_map_seq_ext. intros u_ Hu. apply map_seq_ext. intros v_ Hv.
+  unfold C. rewrite InsertDirR.nth_map_seq by exact Hu. unfold getp at 1.
+  replace (v_ + w_ * sv) with (v_ + sv * w_) by lia.
+  rewrite (nth_flat_map_const (fun w_ => map (fun v_ => getp (v_P g) (vidx g u_ v_ w_)) (seq 0 sv)) sv); auto; try lia.
+  2:{ intros. rewrite map_length, seq_length. reflexivity. }
+  rewrite InsertDirR.nth_map_seq by lia. reflexivity.
+Qed.
+
+(* [G] r removals in u after r insertions in u restore the control net *)
+Theorem vol_remove_r_insert_r_u : 1 <= r -> length (v_P g) = su * sv * sw ->
+  vol_rem_u Rops tol2 g' t r (s + r) (k + r) = v_P g.
+Proof. intros Hr HL. rewrite vol_remove_j_insert_r_u by lia. rewrite Nat.sub_diag. apply net_u_zero. exact HL. Qed.
+End VolU.
+
+(* ------------------------------------------------------------------ v direction *)
+Section VolV.
+Variables (tol2 : R) (g : @vol R) (t : R) (s k d r : nat).
+Notation su := (v_su g). Notation sv := (v_sv g). Notation sw := (v_sw g).
+Hypothesis Hsr : s + r <= v_pv g.
+Hypothesis Hpk : v_pv g <= k.
+Hypothesis Hk : k < sv.
+Hypothesis HkU : k + v_pv g < length (v_Uv g).
+Hypothesis Hsu : 0 < su.
+Hypothesis Hsw : 0 < sw.
+Hypothesis Hdim : forall i, i < su * sv * sw -> length (getp (v_P g) i) = d.
+Hypothesis Htol : (0 <= tol2)%R.
+Hypothesis HsepL : forall i, k - v_pv g < i <= k - s -> (knR (v_Uv g) i < t)%R.
+Hypothesis HsepR : forall i, k < i <= k + v_pv g -> (t < knR (v_Uv g) i)%R.
+
+Let g' := vol_after_v g t r s k.
+Let m := su * sw.
+Let C := map (fun v_ => flat_map (fun w_ => map (fun u_ => getp (v_P g) (vidx g u_ v_ w_)) (seq 0 su)) (seq 0 sw)) (seq 0 sv).
+Let KR (n : nat) := knot_insertion_rows Rops (v_pv g) (v_Uv g) C t n s k.
+
+Lemma m_pos_v : 0 < m.
+Proof. unfold m. nia. Qed.
+Lemma Cv_length : length C = sv.
+Proof. unfold C. rewrite map_length, seq_length. reflexivity. Qed.
+Lemma Cv_rows i : i < length C -> length (nth i C []) = m.
+Proof.
+  intros Hi. rewrite Cv_length in Hi. unfold C. rewrite InsertDirR.nth_map_seq by exact Hi.
+  apply flat_map_length_const. intros. rewrite map_length, seq_length. reflexivity.
+Qed.
+Lemma Cv_pts i c : i < length C -> c < m -> length (nth c (nth i C []) []) = d.
+Proof.
+  intros Hi Hc. rewrite Cv_length in Hi. unfold C. rewrite InsertDirR.nth_map_seq by exact Hi.
+  unfold m in Hc.
+  pose proof (Nat.div_mod c su ltac:(lia)) as Hdm.
+  pose proof (Nat.mod_upper_bound c su ltac:(lia)) as Hmod.
+  assert (Hq : c / su < sw) by (apply Nat.div_lt_upper_bound; lia).
+  rewrite Hdm at 1. rewrite (Nat.add_comm (su * (c / su))).
+  rewrite (nth_flat_map_const _ su); auto.
+  2:{ intros. rewrite map_length, seq_length. reflexivity. }
+  rewrite InsertDirR.nth_map_seq by exact Hmod. apply Hdim. unfold vidx. nia.
+Qed.
+Lemma HkCv : k < length C.
+Proof. rewrite Cv_length. exact Hk. Qed.
+
+Lemma net_v_eq n : vol_net_v Rops g t n s k =
+  flat_map (fun w_ => flat_map (fun u_ => map (fun v_ => getp (nth v_ (KR n) []) (u_ + w_ * su)) (seq 0 (sv + n))) (seq 0 su)) (seq 0 sw).
+Proof. reflexivity. Qed.
+
+Lemma KRv_length n : n <= r -> length (KR n) = sv + n.
+Proof.
+  intros Hn. unfold KR. rewrite (KR_length (v_pv g) (v_Uv g) C t s k m r Hsr Hpk HkCv HkU m_pos_v n Hn). rewrite Cv_length. reflexivity.
+Qed.
+
+Lemma KRv_row n i : n <= r -> i < sv + n -> length (nth i (KR n) []) = m.
+Proof.
+  intros Hn Hi.
+  destruct (KR_row (v_pv g) (v_Uv g) C t s k m r Hsr Hpk HkCv HkU m_pos_v Cv_rows n i 0 Hn
+              ltac:(rewrite Cv_length; exact Hi) m_pos_v) as [HL _]. exact HL.
+Qed.
+
+Lemma net_v_nth n u_ v_ w_ : n <= r -> u_ < su -> v_ < sv + n -> w_ < sw ->
+  getp (vol_net_v Rops g t n s k) (v_ + u_ * (sv + n) + w_ * su * (sv + n)) = nth (u_ + w_ * su) (nth v_ (KR n) []) [].
+Proof.
+  intros Hn Hu Hv Hw. rewrite net_v_eq.
+  replace (v_ + u_ * (sv + n) + w_ * su * (sv + n)) with ((v_ + (sv + n) * u_) + ((sv + n) * su) * w_) by lia.
+  unfold getp at 1.
+  rewrite (nth_flat_map_const (fun w_ => flat_map (fun u_ => map (fun v_ => getp (nth v_ (KR n) []) (u_ + w_ * su)) (seq 0 (sv + n))) (seq 0 su))
+             ((sv + n) * su)); auto; try nia.
+  2:{ intros q Hq. apply flat_map_length_const. intros. rewrite map_length, seq_length. reflexivity. }
+  rewrite (nth_flat_map_const (fun u_ => map (fun v_ => getp (nth v_ (KR n) []) (u_ + w_ * su)) (seq 0 (sv + n))) (sv + n)); auto.
+  2:{ intros. rewrite map_length, seq_length. reflexivity. }
+  rewrite InsertDirR.nth_map_seq by exact Hv. reflexivity.
+Qed.
+
+Lemma pdim_v : pdim (v_P g') = d.
+Proof.
+  unfold pdim, g', vol_after_v. cbn [v_P].
+  pose proof (net_v_nth r 0 0 0 ltac:(lia) Hsu ltac:(lia) Hsw) as E. cbn [Nat.mul Nat.add] in E. rewrite E.
+  apply (KR_pt_dim (v_pv g) (v_Uv g) C t s k d m r Hsr Hpk HkCv HkU m_pos_v Cv_rows Cv_pts r 0); try lia.
+  - rewrite Cv_length. lia.
+  - apply nth_In. change (0 < length (nth 0 (KR r) [])). rewrite KRv_row by lia. exact m_pos_v.
+Qed.
+
+Lemma rem_cpt2d_v :
+  map (fun v_ => flat_map (fun w_ => flat_map (fun u_ => getp (v_P g') (vidx g' u_ v_ w_)) (seq 0 (v_su g'))) (seq 0 (v_sw g'))) (seq 0 (v_sv g'))
+  = map (@concat R) (KR r).
+Proof.
+  unfold g', vol_after_v, vidx. cbn [v_P v_su v_sv v_sw].
+  rewrite <- (map_seq_nth (@concat R) (KR r) [] (sv + r)) by (apply KRv_length; lia).
+  apply map_seq_ext. intros v_ Hv.
+  rewrite <- (flat2_nth_concat (nth v_ (KR r) []) su sw) by (apply KRv_row; lia).
+  apply flat_map_seq_ext. intros w_ Hw. apply flat_map_seq_ext. intros u_ Hu. apply net_v_nth; lia.
+Qed.
+
+(* [G] j removals in v after r insertions in v: the net operations.insert_knot builds for the count r - j *)
+Theorem vol_remove_j_insert_r_v j : 1 <= j <= r ->
+  vol_rem_v Rops tol2 g' t j (s + r) (k + r) = vol_net_v Rops g t (r - j) s k.
+Proof.
+  intros Hj. unfold vol_rem_v. rewrite pdim_v. rewrite rem_cpt2d_v.
+  replace (v_sv g' - j) with (sv + (r - j)) by (unfold g', vol_after_v; cbn [v_sv]; lia).
+  replace (v_su g') with su by reflexivity. replace (v_sw g') with sw by reflexivity.
+  replace (v_pv g') with (v_pv g) by reflexivity. replace (v_Uv g') with (knot_insertion_kv (v_Uv g) t k r) by reflexivity.
+  rewrite net_v_eq. apply flat_map_seq_ext. intros w_ Hw. apply flat_map_seq_ext. intros u_ Hu.
+  apply map_seq_ext. intros v_ Hv. unfold getp at 2.
+  apply (rows_remove_chunk d tol2 (v_pv g) (v_Uv g) C t s k d m r Hsr Hpk HkCv HkU m_pos_v Cv_rows Cv_pts Htol HsepL HsepR j v_ (u_ + w_ * su) Hj).
+  - rewrite Cv_length. lia.
+  - unfold m. nia.
+Qed.
+Lemma net_v_zero : length (v_P g) = su * sv * sw -> vol_net_v Rops g t 0 s k = v_P g.
+Proof.
+  intros HL. rewrite net_v_eq. unfold KR, knot_insertion_rows. rewrite kig_zero by (rewrite ?Cv_length; lia).
+  rewrite Nat.add_0_r.
+  etransitivity; [|apply (reindex3 (v_P g) [] sv su sw); lia].
+  apply flat_map_seq_ext. intros w_ Hw. apply flat_map_seq_ext. intros u_ Hu. apply map_seq_ext. intros v_ Hv.
+  unfold C. rewrite InsertDirR.nth_map_seq by lia. unfold getp at 1.
+  replace (u_ + w_ * su) with (u_ + su * w_) by lia.
+  rewrite (nth_flat_map_const (fun w_ => map (fun u_ => getp (v_P g) (vidx g u_ v_ w_)) (seq 0 su)) su); auto; try lia.
+  2:{ intros. rewrite map_length, seq_length. reflexivity. }
+  rewrite InsertDirR.nth_map_seq by lia. reflexivity.
+Qed.
+
+(* [G] r removals in v after r insertions in v restore the control net *)
+Theorem vol_remove_r_insert_r_v : 1 <= r -> length (v_P g) = su * sv * sw ->
+  vol_rem_v Rops tol2 g' t r (s + r) (k + r) = v_P g.
+Proof. intros Hr HL. rewrite vol_remove_j_insert_r_v by lia. rewrite Nat.sub_diag. apply net_v_zero. exact HL. Qed.
+End VolV.
+
+(* ------------------------------------------------------------------ the volume is unchanged *)
+(* [G] the volume object operations.remove_knot builds (one direction, count j) from the volume operations.insert_knot
+   built (same direction, count r >= j) is literally the insertion result for the count r - j, hence (C04) has the points
+   of the original volume. *)
+Theorem vol_remove_preserves_volume_w tol2 (g : @vol R) (t : R) s k dim r j :
+  sortedR (v_Uw g) -> length (v_Uw g) = v_sw g + v_pw g + 1 -> 1 <= j <= r -> s + r <= v_pw g -> v_pw g <= k -> k < v_sw g ->
+  0 < v_su g -> 0 < v_sv g ->
+  (knR (v_Uw g) k <= t < knR (v_Uw g) (k + 1))%R -> (knR (v_Uw g) (k - s) < t)%R ->
+  (forall i, k - s < i <= k -> knR (v_Uw g) i = t) ->
+  (forall i, i < v_su g * v_sv g * v_sw g -> length (getp (v_P g) i) = dim) -> (0 <= tol2)%R ->
+  let g' := vol_after_w g t r s k in
+  let g'' := mkV (v_pu g') (v_pv g') (v_pw g') (v_Uu g') (v_Uv g') (knot_removal_kv (v_Uw g') (k + r) j)
+                 (v_su g') (v_sv g') (v_sw g' - j) (vol_rem_w Rops tol2 g' t j (s + r) (k + r)) in
+  forall c tu tv tw, c < dim -> vol_pt g'' c tu tv tw = vol_pt g c tu tv tw.
+Proof.
+  intros HS HL Hj H1 H2 H3 Hsu Hsv Hu Hlt Hm Hd Ht g' g'' c tu tv tw Hc.
+  destruct (sep_of_sorted (v_Uw g) t (v_pw g) s k HS ltac:(lia) Hlt ltac:(lra)) as [SL SR].
+  assert (E : g'' = vol_after_w g t (r - j) s k).
+  { unfold g'', g', vol_after_w. cbn [v_pu v_pv v_pw v_Uu v_Uv v_Uw v_su v_sv v_sw].
+    fold (vol_after_w g t r s k).
+    rewrite (vol_remove_j_insert_r_w tol2 g t s k dim r) by (auto; lia).
+    rewrite rem_kv_ins_kv_partial by lia.
+    replace (v_sw g + r - j) with (v_sw g + (r - j)) by lia. reflexivity. }
+  rewrite E. apply (vol_insert_w_preserves g t (r - j) s k dim); auto; lia.
+Qed.
+
+Theorem vol_remove_preserves_volume_v tol2 (g : @vol R) (t : R) s k dim r j :
+  sortedR (v_Uv g) -> length (v_Uv g) = v_sv g + v_pv g + 1 -> 1 <= j <= r -> s + r <= v_pv g -> v_pv g <= k -> k < v_sv g ->
+  0 < v_su g -> 0 < v_sw g ->
+  (knR (v_Uv g) k <= t < knR (v_Uv g) (k + 1))%R -> (knR (v_Uv g) (k - s) < t)%R ->
+  (forall i, k - s < i <= k -> knR (v_Uv g) i = t) ->
+  (forall i, i < v_su g * v_sv g * v_sw g -> length (getp (v_P g) i) = dim) -> (0 <= tol2)%R ->
+  let g' := vol_after_v g t r s k in
+  let g'' := mkV (v_pu g') (v_pv g') (v_pw g') (v_Uu g') (knot_removal_kv (v_Uv g') (k + r) j) (v_Uw g')
+                 (v_su g') (v_sv g' - j) (v_sw g') (vol_rem_v Rops tol2 g' t j (s + r) (k + r)) in
+  forall c tu tv tw, c < dim -> vol_pt g'' c tu tv tw = vol_pt g c tu tv tw.
+Proof.
+  intros HS HL Hj H1 H2 H3 Hsu Hsw Hu Hlt Hm Hd Ht g' g'' c tu tv tw Hc.
+  destruct (sep_of_sorted (v_Uv g) t (v_pv g) s k HS ltac:(lia) Hlt ltac:(lra)) as [SL SR].
+  assert (E : g'' = vol_after_v g t (r - j) s k).
+  { unfold g'', g', vol_after_v. cbn [v_pu v_pv v_pw v_Uu v_Uv v_Uw v_su v_sv v_sw].
+    fold (vol_after_v g t r s k).
+    rewrite (vol_remove_j_insert_r_v tol2 g t s k dim r) by (auto; lia).
+    rewrite rem_kv_ins_kv_partial by lia.
+    replace (v_sv g + r - j) with (v_sv g + (r - j)) by lia. reflexivity. }
+  rewrite E. apply (vol_insert_v_preserves g t (r - j) s k dim); auto; lia.
+Qed.
+
+Theorem vol_remove_preserves_volume_u tol2 (g : @vol R) (t : R) s k dim r j :
+  sortedR (v_Uu g) -> length (v_Uu g) = v_su g + v_pu g + 1 -> 1 <= j <= r -> s + r <= v_pu g -> v_pu g <= k -> k < v_su g ->
+  0 < v_sv g -> 0 < v_sw g ->
+  (knR (v_Uu g) k <= t < knR (v_Uu g) (k + 1))%R -> (knR (v_Uu g) (k - s) < t)%R ->
+  (forall i, k - s < i <= k -> knR (v_Uu g) i = t) ->
+  (forall i, i < v_su g * v_sv g * v_sw g -> length (getp (v_P g) i) = dim) -> (0 <= tol2)%R ->
+  let g' := vol_after_u g t r s k in
+  let g'' := mkV (v_pu g') (v_pv g') (v_pw g') (knot_removal_kv (v_Uu g') (k + r) j) (v_Uv g') (v_Uw g')
+                 (v_su g' - j) (v_sv g') (v_sw g') (vol_rem_u Rops tol2 g' t j (s + r) (k + r)) in
+  forall c tu tv tw, c < dim -> vol_pt g'' c tu tv tw = vol_pt g c tu tv tw.
+Proof.
+  intros HS HL Hj H1 H2 H3 Hsv Hsw Hu Hlt Hm Hd Ht g' g'' c tu tv tw Hc.
+  destruct (sep_of_sorted (v_Uu g) t (v_pu g) s k HS ltac:(lia) Hlt ltac:(lra)) as [SL SR].
+  assert (E : g'' = vol_after_u g t (r - j) s k).
+  { unfold g'', g', vol_after_u. cbn [v_pu v_pv v_pw v_Uu v_Uv v_Uw v_su v_sv v_sw].
+    fold (vol_after_u g t r s k).
+    rewrite (vol_remove_j_insert_r_u tol2 g t s k dim r) by (auto; lia).
+    rewrite rem_kv_ins_kv_partial by lia.
+    replace (v_su g + r - j) with (v_su g + (r - j)) by lia. reflexivity. }
+  rewrite E. apply (vol_insert_u_preserves g t (r - j) s k dim); auto; lia.
+Qed.
+
+Print Assumptions vol_remove_j_insert_r_u.
+Print Assumptions vol_remove_j_insert_r_v.
+Print Assumptions vol_remove_j_insert_r_w.
+Print Assumptions vol_remove_preserves_volume_u.
+Print Assumptions vol_remove_preserves_volume_v.
+Print Assumptions vol_remove_preserves_volume_w.
